@@ -27,7 +27,7 @@ by a `socket` shim inside `pyrtma.client`; connections can die (`cut`) with or w
           (`ids`: CORR compares the identity projection only - outcome, connected, ids, table without subscriptions, cursor)
     U <type> ...
     OTHER <mod_id> <unique 0|1>                 every module record that exists before the client's first call
-    LOP connect <allow 0|1> | disconnect | lostRead <noticed 0|1> | lostSend <noticed> | ctlLost <kind> <noticed> <type..>
+    LOP connect <allow 0|1> | connectLate <allow> | disconnect | lostRead <noticed 0|1> | lostSend <noticed> | ctlLost <kind> <noticed> <type..>
         | mgrNotices | sub <OP syntax of above>
     LPH <ok|refused|notConnected|lost|crash:X> <nframes> S.. P.. D.. F.. M.. I.. A <0|1> C <connected> N <module_id>
         R <CONNECT_V2.mod_id|-> K <ACK.dest_mod_id|-> H <mod_id of the other records..> T <mod_id:connected:unique:[subs] of
@@ -787,6 +787,8 @@ def _lstatus(EX, e: Optional[BaseException]) -> str:
         return "notConnected"
     if isinstance(e, EX.ConnectionLost):
         return "lost"
+    if isinstance(e, EX.AcknowledgementTimeout):
+        return "ackTimeout"
     return f"crash:{type(e).__name__}"
 
 
@@ -837,6 +839,17 @@ def run_life_case(cid: str, case: Dict[str, Any]) -> List[str]:
             if kind == "connect":
                 lines.append(f"LOP connect {int(op[1])}")
                 emit(_call(lambda: c.connect("h:1", False, False, bool(op[1]))))
+            elif kind == "connectLate":
+                # the manager is busy: it gets to the new connection only after the client's 3 s are over
+                lines.append(f"LOP connectLate {int(op[1])}")
+                real_pump = lp.w.pump
+                lp.w.pump = lambda: None
+                try:
+                    err = _call(lambda: c.connect("h:1", False, False, bool(op[1])))
+                finally:
+                    lp.w.pump = real_pump
+                lp.w.pump()
+                emit(err)
             elif kind == "disconnect":
                 lines.append("LOP disconnect")
                 emit(_call(c.disconnect))
@@ -955,7 +968,9 @@ def life_rand_case(rng, n_ops: int = 25) -> Dict[str, Any]:
 
     for _ in range(rng.randint(3, n_ops)):
         r = rng.random()
-        if r < 0.18:
+        if r < 0.015:
+            ops.append(("connectLate", int(rng.random() < 0.4)))
+        elif r < 0.18:
             ops.append(("connect", int(rng.random() < 0.4)))
         elif r < 0.25:
             ops.append(("disconnect",))
@@ -996,6 +1011,11 @@ def life_directed() -> List[Dict[str, Any]]:
         (12, [(12, True)], 0, [("connect", 0), ("connect", 1), sub("subscribe", [101]), ("connect", 1)]),
         # every dynamic id taken: refused
         (0, [], 100, [("connect", 0)]),
+        # open finding C02-F4: the handshake is answered too late; the object stays "connected" with the old sets
+        (12, [], 0, [("connect", 0), sub("subscribe", [101, 102]), ("lostRead", 1), ("connectLate", 0), sub("subscribe", [103]),
+                     ("connect", 0)]),
+        (0, [], 0, [("connect", 0), sub("subscribe", [ALLT]), ("lostSend", 0), ("connectLate", 0), ("disconnect",), ("connect", 0)]),
+        (0, [], 0, [("connectLate", 0), sub("subscribe", [101]), ("connectLate", 1), ("connect", 0)]),
         # calls on a client that was never connected / is disconnected
         (0, [], 0, [sub("subscribe", [101]), sub("subCtx", [101]), ("lostRead", 0), ("disconnect",), ("mgrNotices",),
                     ("connect", 0), ("disconnect",), sub("unsubAll", []), ("ctlLost", "pause", 0, [101])]),
